@@ -1,8 +1,156 @@
-/- line-protocol handlers for C03 (stub: not built yet) -/
+/- line-protocol handlers for C03 (state-vector simulator = embedded operator) -/
 import Driver.Loop
+import NumqiModel.Sim
+import NumqiModel.Measure
 
 namespace Numqi.Driver.C03
+open Numqi
 
-def handle (_args : List String) : String := "bad-op"
+/-- how scalars cross the protocol for one carrier -/
+structure Carrier (α : Type) where
+  parse : String → Option α
+  str : α → String
+
+/-- `Z`: Gaussian integers `a,b` -/
+def carZ : Carrier GInt := ⟨parseGInt?, GInt.toStr⟩
+
+/-- `Q`: every scalar comes in as two binary64 bit patterns `reBits,imBits` and is decoded exactly;
+results go out as exact rationals `p/q,p/q` -/
+def carQ : Carrier QI :=
+  ⟨fun s => match s.splitOn "," with
+      | [a, b] => do
+          let x ← a.toNat?; let y ← b.toNat?
+          if x / 2 ^ 52 % 2048 = 2047 || y / 2 ^ 52 % 2048 = 2047 then none   -- inf / nan
+          else pure ⟨ratOfFloatBits x, ratOfFloatBits y⟩
+      | _ => none,
+   QI.toStr⟩
+
+section
+variable {α : Type} [Add α] [Mul α] [Zero α] [One α] [Conj α]
+
+def parseArr (car : Carrier α) (s : String) : Option (Array α) :=
+  if s = "-" || s = "" then some #[] else ((s.splitOn ";").mapM car.parse).map List.toArray
+
+def strArr (car : Carrier α) (a : Array α) : String := ";".intercalate (a.toList.map car.str)
+
+def parseIdx? (s : String) : Option (List Int) := parseIntList? s
+
+/-- one program step: `u:<t>:<U>`, `c:<c>:<t>:<U>`, `m:<s>:<bits>`, `x:<U>`, `s:<delta>` (shift everything so far) -/
+inductive Step (α : Type) where
+  | op (g : RawOp α)
+  | shift (δ : Int)
+
+def parseStep (car : Carrier α) (s : String) : Option (Step α) :=
+  match s.splitOn ":" with
+  | ["u", t, u] => do let t ← parseIdx? t; let u ← parseArr car u; pure (.op (.unitary u t))
+  | ["c", c, t, u] => do
+      let c ← parseIdx? c; let t ← parseIdx? t; let u ← parseArr car u; pure (.op (.control u c t))
+  | ["m", sq, b] => do let sq ← parseIdx? sq; let b ← parseBits? b; pure (.op (.measure sq b))
+  | ["x", u] => do let u ← parseArr car u; pure (.op (.custom u))
+  | ["s", d] => do let d ← d.toInt?; pure (.shift d)
+  | _ => none
+
+/-- run the program text: gate appends, and in-place shifts of everything appended so far -/
+def parseProg (car : Carrier α) (s : String) : Option (List (RawOp α)) :=
+  if s = "-" then some [] else do
+    let steps ← (s.splitOn "|").mapM (parseStep car)
+    pure (steps.foldl (fun acc st => match st with
+      | .op g => acc ++ [g]
+      | .shift δ => acc.map (RawOp.shift δ)) [])
+
+def log2? (len : Nat) : Option Nat := (List.range 16).find? fun n => 2 ^ n == len
+
+def handleR (car : Carrier α) (args : List String) : String :=
+  match args with
+  | ["gate", n, t, u, psi] => Id.run do
+      let some n := n.toNat? | return "bad-op"
+      let some t := parseIdx? t | return "bad-op"
+      let some u := parseArr car u | return "bad-op"
+      let some psi := parseArr car psi | return "bad-op"
+      if psi.size ≠ 2 ^ n then return "bad-op"
+      let some g := (RawOp.unitary u t).compile n | return "error"
+      return strArr car (g.applyA psi)
+  | ["ctrl", n, c, t, u, psi] => Id.run do
+      let some n := n.toNat? | return "bad-op"
+      let some c := parseIdx? c | return "bad-op"
+      let some t := parseIdx? t | return "bad-op"
+      let some u := parseArr car u | return "bad-op"
+      let some psi := parseArr car psi | return "bad-op"
+      if psi.size ≠ 2 ^ n then return "bad-op"
+      let some g := (RawOp.control u c t).compile n | return "error"
+      return strArr car (g.applyA psi)
+  | ["embed", n, t, u] => Id.run do
+      let some n := n.toNat? | return "bad-op"
+      let some t := parseIdx? t | return "bad-op"
+      let some u := parseArr car u | return "bad-op"
+      match (RawOp.unitary u t).compile n with
+      | some (.unitary U t) => return strArr car (tabulateMat (embed U t))
+      | _ => return "error"
+  | ["cembed", n, c, t, u] => Id.run do
+      let some n := n.toNat? | return "bad-op"
+      let some c := parseIdx? c | return "bad-op"
+      let some t := parseIdx? t | return "bad-op"
+      let some u := parseArr car u | return "bad-op"
+      match (RawOp.control u c t).compile n with
+      | some (.control U isCtrl rest tNew) =>
+          return strArr car (tabulateMat (ctrlEmbed U isCtrl (fun j => rest (tNew j))))
+      | _ => return "error"
+  | ["dm", n, t, u, rho] => Id.run do
+      let some n := n.toNat? | return "bad-op"
+      let some t := parseIdx? t | return "bad-op"
+      let some u := parseArr car u | return "bad-op"
+      let some rho := parseArr car rho | return "bad-op"
+      if rho.size ≠ 2 ^ n * 2 ^ n then return "bad-op"
+      match (RawOp.unitary u t).compile n with
+      | some (.unitary U t) => return strArr car (tabulateMat (dmApply U t (lookupMat rho)))
+      | _ => return "error"
+  | ["expect", n, t, u, rho] => Id.run do
+      let some n := n.toNat? | return "bad-op"
+      let some t := parseIdx? t | return "bad-op"
+      let some u := parseArr car u | return "bad-op"
+      let some rho := parseArr car rho | return "bad-op"
+      if rho.size ≠ 2 ^ n * 2 ^ n then return "bad-op"
+      match (RawOp.unitary u t).compile n with
+      | some (.unitary U t) => return car.str (expectation U t (lookupMat rho))
+      | _ => return "error"
+  | ["inner", n, psi0, psi1, term] => Id.run do
+      let some n := n.toNat? | return "bad-op"
+      let some psi0 := parseArr car psi0 | return "bad-op"
+      let some psi1 := parseArr car psi1 | return "bad-op"
+      let some term := parseProg car term | return "bad-op"
+      if psi0.size ≠ 2 ^ n || psi1.size ≠ 2 ^ n then return "bad-op"
+      let some c := compileCircuit n term | return "error"
+      return car.str (innerProductOp (n := n) (lookup psi0) (lookup psi1) c)
+  | ["prob", n, keep, psi] => Id.run do
+      let some n := n.toNat? | return "bad-op"
+      let some keep := parseIdx? keep | return "bad-op"
+      let some psi := parseArr car psi | return "bad-op"
+      if psi.size ≠ 2 ^ n then return "bad-op"
+      -- `sorted(keep_index_set)`: the harness sends the set sorted; the assertion of state.py:245 is the range check
+      match (RawOp.measure keep (keep.map fun _ => false)).compile n with
+      | some (.measure s _) => return strArr car (tabulate (reduceToProbability s (lookup (n := n) psi)))
+      | _ => return "error"
+  | ["circ", n, prog, psi] => Id.run do
+      let some n := n.toNat? | return "bad-op"
+      let some prog := parseProg car prog | return "bad-op"
+      let some psi := parseArr car psi | return "bad-op"
+      if psi.size ≠ 2 ^ n then return "bad-op"
+      let some c := compileCircuit n prog | return "error"
+      let recs := measureRecords c psi
+      return strArr car (applyStateA c psi) ++ String.join (recs.map fun r => " M " ++ strArr car r)
+  | ["unitary", prog] => Id.run do
+      let some prog := parseProg car prog | return "bad-op"
+      if prog.isEmpty || prog.any RawOp.isMeasure then return "error"
+      let n := numQubit prog
+      let some c := compileCircuit n prog | return "error"
+      return s!"{n} " ++ strArr car (toUnitaryA c)
+  | _ => "bad-op"
+end
+
+def handle (args : List String) : String :=
+  match args with
+  | "Z" :: rest => handleR carZ rest
+  | "Q" :: rest => handleR carQ rest
+  | _ => "bad-op"
 
 end Numqi.Driver.C03
